@@ -94,3 +94,37 @@ Proof.
   - rewrite Eb, Fa. apply perm_swap.
   - exfalso. lia.
 Qed.
+
+(* the events "i wins" partition the draws without ties: some index wins *)
+Lemma sp_wins_exists :
+  forall us ws, ws <> [] -> sp_no_ties us ws -> exists i, (i < length ws)%nat /\ sp_wins us ws i.
+Proof.
+  intros us ws Hne Hnt.
+  set (rk := fun l => sp_key (nth l us 0%R) (nth l ws 0%R)).
+  assert (H : forall n, (1 <= n <= length ws)%nat ->
+            exists i, (i < n)%nat /\ forall j, (j < n)%nat -> j <> i -> (rk j < rk i)%R).
+  { induction n as [|n IH]; intros Hn; [lia|].
+    destruct (Nat.eq_dec n 0) as [->|Hn0].
+    - exists 0%nat. split; [lia|]. intros j Hj Hj0. lia.
+    - destruct (IH ltac:(lia)) as (i & Hi & Hmax).
+      destruct (Rtotal_order (rk n) (rk i)) as [Hlt | [Heq | Hgt]].
+      + exists i. split; [lia|]. intros j Hj Hji.
+        destruct (Nat.eq_dec j n) as [->|Hjn]; [exact Hlt | apply Hmax; lia].
+      + exfalso. apply (Hnt n i ltac:(lia) ltac:(lia) ltac:(lia)). exact Heq.
+      + exists n. split; [lia|]. intros j Hj Hjn.
+        destruct (Nat.eq_dec j i) as [->|Hji]; [exact Hgt|].
+        specialize (Hmax j ltac:(lia) Hji). lra. }
+  destruct ws as [|w ws']; [congruence|].
+  destruct (H (length (w :: ws')) ltac:(simpl; lia)) as (i & Hi & Hmax).
+  exists i. split; [exact Hi|]. intros j Hj Hji. exact (Hmax j Hj Hji).
+Qed.
+
+Lemma sp_exactly_one_winner :
+  forall us ws, ws <> [] -> sp_no_ties us ws ->
+    exists i, (i < length ws)%nat /\ sp_wins us ws i /\
+              forall j, (j < length ws)%nat -> sp_wins us ws j -> j = i.
+Proof.
+  intros us ws Hne Hnt. destruct (sp_wins_exists us ws Hne Hnt) as (i & Hi & Hw).
+  exists i. split; [exact Hi|]. split; [exact Hw|].
+  intros j Hj Hwj. exact (sp_wins_unique us ws j i Hj Hi Hwj Hw).
+Qed.
